@@ -62,7 +62,7 @@ structure DState where
   specs : List ClusterSpec := []
   world : World := { configCluster := [], clusters := [] }
   cache : Cache := []
-  grants : List (Bool × Str × Str) := []
+  grants : List RefGrant := []
   gws : List GwConfig := []
 
 def DState.upd (d : DState) (id : Str) (f : ClusterSpec → ClusterSpec) : DState :=
@@ -128,6 +128,9 @@ def stepD (d : DState) (toks : List String) : DState × String :=
     (d.upd (s2l cl) (fun s => { s with allow := (s2l sa, s2l ns) :: s.allow }), "ok")
   | ["start", cfg] =>
     ({ d with world := { configCluster := s2l cfg, clusters := d.specs.map ClusterSpec.toCluster }, cache := [] }, "ok")
+  | ["start", cfg, remote] =>
+    ({ d with world := { configCluster := s2l cfg, clusters := d.specs.map ClusterSpec.toCluster,
+                         remoteCreds := tokBool remote }, cache := [] }, "ok")
   | ["clear"] => ({ d with cache := [] }, "ok")
   | ["gen", hasVid, td, ns, sa, cl, refs, _ptype, _claimed, names, req, uk, un, us] =>
     let p : Proxy := { verified := if tokBool hasVid then some ⟨s2l td, s2l ns, s2l sa⟩ else none,
@@ -150,14 +153,23 @@ def stepD (d : DState) (toks : List String) : DState × String :=
       | none => (d, "badnode")
       | some (_, .denied) => (d, "denied")
       | some (cfg, .ok v) =>
-        let p : Proxy := { verified := v, cluster := "Kubernetes".toList, refs := none }
+        -- MergedGateway exists for router proxies only; its verified set is what mergeGateways computes from the
+        -- world's Gateways, the verified identity and the real ReferenceGrant evaluation
+        let isRouter := (split '~' (s2l node)).head? == some "router".toList
+        let p : Proxy := { verified := v, cluster := "Kubernetes".toList,
+                           refs := if isRouter then some (verifiedRefs (grantEval d.grants) v d.gws) else none }
         match generate d.world d.cache p (decL names) (some ⟨true, []⟩) with
         | none => (d, s!"accepted {showId v} cfg={l2t cfg} -")
         | some o =>
           ({ d with cache := o.cache },
            s!"accepted {showId v} cfg={l2t cfg} {encList (sortOnly (o.res.map (fun e => showVal e.1 e.2)))}")
   -- stream refs
-  | ["grant", k, rn, ns] => ({ d with grants := (k == "L", s2l rn, s2l ns) :: d.grants }, "ok")
+  | ["rgrant", src, frm, fns, to, name] =>
+    let g : RefGrant :=
+      { srcNs := s2l src, fromLS := (if frm == "G" then some false else if frm == "L" then some true else none),
+        fromNs := s2l fns, toKind := (if to == "S" then .secret else if to == "M" then .configMap else .other),
+        name := (if name == "*" then none else some (s2l name)) }
+    ({ d with grants := g :: d.grants }, "ok")
   | ["gw", ns, sa, pns, parents] =>
     ({ d with gws := d.gws ++ [{ ns := s2l ns, saAnn := s2l sa, parentNsAnn := s2l pns, parentsAnn := s2l parents, servers := [] }] }, "ok")
   | ["srv", hasPort, cns, cn, mode, ca] =>
@@ -170,7 +182,7 @@ def stepD (d : DState) (toks : List String) : DState × String :=
     | g :: rest => ({ d with gws := (({ g with servers := g.servers ++ [sv] } : GwConfig) :: rest).reverse }, "ok")
   | ["merge", hasVid, td, ns, sa] =>
     let vid := if tokBool hasVid then some (⟨s2l td, s2l ns, s2l sa⟩ : Identity) else none
-    let granted : Grants := fun ls rn n => d.grants.contains (ls, rn, n)
+    let granted : Grants := grantEval d.grants
     (d, "refs=" ++ encSet ((verifiedRefs granted vid d.gws).map String.ofList))
   | _ => (d, "bad-op")
 
